@@ -18,10 +18,10 @@ import (
 )
 
 type Stmt struct {
-	Kind string // begin commit rollback exec query
-	SQL  string
-	Args []driver.Value
-	Col0 []string // first column of every returned row (queries)
+	Kind  string // begin commit rollback exec query
+	SQL   string
+	Args  []driver.Value
+	Col0  []string // first column of every returned row (queries)
 	Label string
 }
 
@@ -39,15 +39,15 @@ func labelOf(ctx context.Context) string {
 }
 
 type Ctl struct {
-	mu      sync.Mutex
-	logging bool
-	log     []*Stmt
-	n       int // statements counted since arm
-	failAt  int // 1-based, 0 = off
-	cancelAt int
-	cancel  context.CancelFunc
+	mu        sync.Mutex
+	logging   bool
+	log       []*Stmt
+	n         int // statements counted since arm
+	failAt    int // 1-based, 0 = off
+	cancelAt  int
+	cancel    context.CancelFunc
 	failLabel string // only count statements of this label ("" = all)
-	tick    time.Duration
+	tick      time.Duration
 	// gates
 	gated   map[string]bool          // labels that stop at gates
 	parked  map[string]chan struct{} // label -> release channel
@@ -78,6 +78,7 @@ func (c *Ctl) Arm(failAt, cancelAt int, cancel context.CancelFunc, label string)
 	c.n, c.failAt, c.cancelAt, c.cancel, c.failLabel = 0, failAt, cancelAt, cancel, label
 	c.mu.Unlock()
 }
+
 // peek returns the statements logged so far without stopping the log.
 func (c *Ctl) peek() []*Stmt {
 	c.mu.Lock()
